@@ -136,9 +136,11 @@ def build(history: list[tuple[str, ...]], spacing: float, scripts: tuple[list[st
 def run(tier: str, seed: int) -> CheckResult:
     depth = 3 if tier == 'quick' else 4
     # (resume r1, resume r2[, update u1]); a handler that fails for good has finished as well
-    script_sets: list[tuple[list[str], ...]] = [(['ok'], ['temp', 'ok']), (['ok'], ['ok']), (['ok'], ['perm']), (['ok'], ['ok'], ['perm'])] if tier == 'quick' else \
+    script_sets: list[tuple[list[str], ...]] = [(['ok'], ['temp', 'ok']), (['ok'], ['ok']), (['ok'], ['perm']), (['ok'], ['ok'], ['perm']),
+                                                  (['ok~2'], ['ok'])] if tier == 'quick' else \
         [(['ok'], ['temp', 'ok']), (['ok'], ['ok']), (['temp', 'ok'], ['temp', 'temp', 'ok']), (['arb', 'ok'], ['ok']),
-         (['ok'], ['perm']), (['ok'], ['ok'], ['perm']), (['perm'], ['temp', 'ok'], ['temp', 'perm'])]
+         (['ok'], ['perm']), (['ok'], ['ok'], ['perm']), (['perm'], ['temp', 'ok'], ['temp', 'perm']),
+         (['ok~2'], ['ok']), (['ok~2'], ['temp', 'ok~2'])]     # slow handlers: re-listings and edits land while one is running
     hist = [build(h, sp, sc, late_b=(len(h) <= 1), delays=False, early_user=False, time_dev=False)
             for h in histories(depth) for sp in (1.0, 8.0) for sc in script_sets]
     timing = [build(h, 2.0, script_sets[0], late_b=False, kills=True) for h in histories(1 if tier == 'quick' else 2)]
